@@ -421,6 +421,15 @@ pub fn layout_module(l: &Layout) -> String {
         }
     }
     let _ = writeln!(o, "            _ => panic!(\"HARNESS: field {{f}} is not writable\"),\n        }}\n    }}");
+    if l.fields.iter().any(|f| f.kind == Kind::Nested && f.type_width.is_none()) {
+        let _ = writeln!(o, "    fn supplied(&self, f: usize, v: u128) -> u128 {{\n        match f {{");
+        for (j, f) in l.fields.iter().enumerate() {
+            if f.kind == Kind::Nested && f.type_width.is_none() {
+                let _ = writeln!(o, "            {j} => {},", uint_out(f.value_width(), &format!("in_{j}(v).raw_value()")));
+            }
+        }
+        let _ = writeln!(o, "            _ => v,\n        }}\n    }}");
+    }
     let _ = writeln!(o, "    fn clone_box(&self) -> Box<dyn Reg> {{ let c: T = self.0; Box::new(G(c)) }}");
     let _ = writeln!(o, "    fn rewrap(&self) -> Box<dyn Reg> {{ Box::new(G(T::new_with_raw_value(self.0.raw_value()))) }}");
     let _ = writeln!(
